@@ -154,7 +154,7 @@ def gen_value(src, T, good=True, depth=0):
         return src.pick([None, 1.5, ["list", [1]]])
     if k == "literal":
         # (True is no member of a Literal that offers the int 1: choices are matched by type and value)
-        return src.pick(T[1]) if good else src.pick(["A", 2, None, ""] + ([True, 1.0] if 1 in T[1] else []))
+        return src.pick(T[1]) if good else src.pick(([True, 1.0] if 1 in T[1] else []) + ["A", 2, None, ""])
     if k == "tuple":
         items = [gen_value(src, t, True, depth) for t in T[1]]
         if not good:
